@@ -750,3 +750,22 @@ def e2e_term(case, res):
         g_nat(fuel), g_bool(sh), g_list([g_list([g_hook(h) for h in t]) for t in ticks]),
         g_list([g_script(s) for s in scripts]),
         g_list([g_o2(e2e_outcome(case, o)) for o in res["outcomes"]]), g_nat(res["executions"]), spec)
+
+
+def e2e_notes(log):
+    """decision-log text of a compiled simulation -> per tick run, the note lines ('^ ...')"""
+    out = []
+    for chunk in log.split("\nRunning Tick\n")[1:]:
+        out.append([l[l.index("^ "):] for l in chunk.split("\n") if "^ " in l])
+    return out
+
+
+def e2e_log_term(case, run):
+    """the real run's notes and outcome must be those of some valid decision string of the model"""
+    ticks, sh = e2e_ticks(case)
+    a, b = case["a"], case.get("b", [])
+    scripts = e2e_scripts(case)
+    notes = g_list([g_list([g_str(n) for n in t]) for t in e2e_notes(run["log"])])
+    return "(e2e_log_verdict %s %s %s %s %s %s)" % (
+        g_nat(len(a) + len(b) + 1), g_bool(sh), g_list([g_list([g_hook(h) for h in t]) for t in ticks]),
+        g_list([g_script(x) for x in scripts]), notes, g_o2(e2e_outcome(case, run["result"])))
